@@ -334,6 +334,85 @@ SEEDS = {
         property="C20", change="the table cache matches a requested name that is a prefix of a cached list string (<= instead of ==)",
         needs="a list loaded first, then its first member alone or a name that exists nowhere and begins the list string",
         first="missed by C20 (caught by C14)", strengthened="C20 asks, after the list, for its first member alone and for a non-existent beginning of the list string, and compares with a fresh state"),
+    # ---- round 5
+    "C01e-repword-len-le": dict(
+        property="C01", change="isRepeatedWord's length loop reads input->chars[input->length] (<= instead of <)",
+        needs="a repword/rependword rule, more letters before the separator than behind it, the input ending right behind them (xab-ab), an exactly sized input array",
+        first="missed (no repword rule in the tables of the memory streams)",
+        strengthened="the main-pass opcodes with handlers of their own (repword, nocont, compbrl, repeated, joinword, numeric mode ...) are in the generated tables of C01/C02 too, "
+                     "and every table gets inputs built around the operand strings of its own special rules (lib/safety.special_operands), also for shipped tables"),
+    "C02e-insertspace-mark-first": dict(
+        property="C02", change="back-translation's insertSpace writes the spacing mark before it knows that the blank fits",
+        needs="spacing passed to back-translation, a joinword/joinnum rule matched right before a non-blank cell, outlen exactly full",
+        first="missed (the harness sized spacing and typeform for back-translation by max(inlen, outlen); no capacity sweep)",
+        strengthened="spacing and typeform of back-translation are exactly outlen long in the harness; C01/C02 run a few cases per table at EVERY capacity with all optional arrays; braille inputs built from the table's special rules"),
+    "C03f-compbrl-scan-from-wordstart": dict(
+        property="C03", change="doCompbrl scans for the end of the word from the word start instead of from the current position",
+        needs="noUndefined mode, an undefined character at the very start followed by a word with a compbrl/literal string, a table without begcomp/endcomp",
+        first="caught (C03: hang at site 2)", strengthened=""),
+    "C04e-pass-action-one-cell-guard": dict(
+        property="C04", change="passDoAction tests room for one cell instead of the whole string/dots action",
+        needs="a multi-cell action in the last pass and a capacity between L and L+n",
+        first="missed by C04 (C01 catches it since the capacity sweep)", strengthened="C04 sweeps a few forward cases per table over every capacity too"),
+    "C05e-numsign-unchecked": dict(
+        property="C05", change="insertNumberSign ignores the result of the emission",
+        needs="a number sign of two or more cells and a capacity where it does not fit but the digit does", first="caught (C05: engine mismatch)", strengthened=""),
+    "C06e-copychars-ge": dict(
+        property="C06", change="copyCharacters refuses a copy that fills the buffer exactly (>= instead of >)",
+        needs="cells in front of a bracket or a * action ending exactly at outlen", first="caught (C06: forward mismatch)", strengthened=""),
+    "C07e-swapreplace-start": dict(
+        property="C07", change="swapReplace maps every character of a replaced run to the start of the run",
+        needs="a quantified swapcc in a correct rule, a run of two or more class members, position arrays",
+        first="missed (the identity clause was only a theorem about F)",
+        strengthened="family of generated tables that map each character to one cell although rules are at work (quantified swap classes in correct and pass2): identity maps and unchanged cursor checked for every cursor position"),
+    "C08e-emphasisbuffer-kept": dict(
+        property="C08", change="_lou_allocMem keeps the emphasis buffer between calls and clears only srcmax of its srcmax+4 entries",
+        needs="two calls, the second at least 1024 long (with the exact-scratch hook: any length)", first="caught (C08: crash in history, exact mode)", strengthened=""),
+    "C09e-compbrlahead-logical-and": dict(
+        property="C09", change="noCompbrlAhead tests `mode && (...)` instead of `mode & (...)`: any non-zero mode counts as compbrlAtCursor",
+        needs="a cursor in the word behind a largesign/joinword word, dotsIO (or another mode bit)",
+        first="missed (C09 passed no cursor)", strengthened="C09 cases carry a cursor (the same in all modes, the returned one compared too), some aimed at the word behind the table's largesign/joinword words"),
+    "C10e-prehyph-partial-returns-0": dict(
+        property="C10", change="lou_translatePrehyphenated returns 0 on partly consumed input also without hyphen arrays",
+        needs="no hyphen arrays and a partial translation", first="caught (C10: wrapper function differs)", strengthened=""),
+    "C11e-back-dotsio-low-byte": dict(
+        property="C11", change="_lou_backTranslate keeps only the low byte of a dotsIO input cell",
+        needs="a one-to-one table with cells that differ in a virtual dot (9-f)", first="caught (C11: backward mismatch)", strengthened=""),
+    "C12e-display-tablesize-stale": dict(
+        property="C12", change="allocateSpaceInDisplayTable records the old capacity after growing: the next growth zeroes everything stored since",
+        needs="a display table that grows at run time (> 1124 records, or every allocation with the no-slack hook)",
+        first="missed by C12 (the display image was not walked; C15 catches it since its display probes)",
+        strengthened="the walker follows both hash tables of the display image (records inside the used part, in the bucket of their key, no cycle) and the Coq checker decides the facts"),
+    "C13e-gettable-no-null-check": dict(
+        property="C13", change="lou_getTable returns the cached translation table although compiling the display part failed",
+        needs="a fault only the display compilation sees, a translation-only compilation (lou_getEmphClasses) in between",
+        first="missed", strengthened="faults that only the display part rejects in the enumeration; after each fault lou_getEmphClasses and lou_checkTable once more (verdict must not change)"),
+    "C14e-passvars-memset-bytes": dict(
+        property="C14", change="_lou_resetPassVariables clears NUMVAR bytes instead of NUMVAR ints (the mechanism of C08-passvars-memset, offered for C14)",
+        needs="a variable with index >= 13 left set, then another call / list / lou_free",
+        first="caught at proof level only (pass_variables_fully_reset; C08 gives a concrete history)", strengthened="C14 got a list using variables across the index range, used before and after other operations and lou_free"),
+    "C15e-free-display-chain-guard": dict(
+        property="C15", change="lou_free tests the (already cleared) translation chain before freeing the display chain: display tables stay cached",
+        needs="a run-time rule with a display effect, lou_free, the same list again",
+        first="missed", strengthened="after the additions C15 calls lou_free and compares translation AND display conversions with the bare files; the as-if-written comparison covers lou_charToDots/lou_dotsToChar and character-mode calls"),
+    "C16e-cr-ends-line-peek": dict(
+        property="C16", change="_lou_getALine treats CR as a line end and peeks one raw byte for the LF",
+        needs="UTF-16LE with CRLF", first="caught (C16: reader mismatch)", strengthened=""),
+    "C17e-braille-hyphens-textlen": dict(
+        property="C17", change="braille-mode lou_hyphenate initialises hyphens[0..textLen) instead of [0..inlen)",
+        needs="mode 1 and braille of another length than the text (contractions, indicators)",
+        first="missed", strengthened="C17 hyphenates real forward output of contracted / capitalised words in braille mode with an exactly sized array and checks the shape of the marks"),
+    "C18e-locale-after-language-region": dict(
+        property="C18", change="analyzeTable records the region of a locale line only when no language was seen before",
+        needs="a header with language before locale and no region line, a query on region",
+        first="missed", strengthened="tables with a language and a locale line in either order and no region; region queries for the tags of table 0"),
+    "C19e-invalid-mode-logprint": dict(
+        property="C19", change="_lou_backTranslate reports an invalid mode through lou_logPrint (default sink) instead of the dispatcher",
+        needs="back-translation with an invalid mode", first="missed (the message is missing from every capture alike)",
+        strengthened="back-translation producers; an expectation for invalid-mode calls (one error-level message each at threshold ALL); the default sink is redirected and must stay empty while a callback is registered"),
+    "C20e-first-name-own-base": dict(
+        property="C20", change="the first name of a list is resolved against its own directory part",
+        needs="a top-level name with a relative directory part and a same-named file below that directory", first="caught (C20: precedence mismatch)", strengthened=""),
 }
 
 
